@@ -119,7 +119,7 @@ fn distinct_queries<T: Flt>(src: &mut Src, x: &[f64], len: usize) -> Vec<T> {
 }
 
 fn shapes(src: &mut Src, obs: &mut Obs, qrank: usize, ntrail: usize) -> (Vec<usize>, Vec<usize>) {
-    let mut qshape: Vec<usize> = (0..qrank).map(|_| src.weighted(&[0, 3, 4, 2])).collect();
+    let mut qshape: Vec<usize> = (0..qrank).map(|_| if qrank == 1 { src.weighted(&[0, 3, 4, 2, 1, 1, 1, 1, 1, 1]) } else { src.weighted(&[0, 3, 4, 2, 1]) }).collect();
     let mut trailing: Vec<usize> = (0..ntrail).map(|_| src.weighted(&[0, 4, 4, 1])).collect();
     if qrank > 0 && src.chance(1, 10) {
         let k = src.below(qrank as u64) as usize;
